@@ -430,9 +430,10 @@ func (h *history) proxyStep(pw *proxyWorld, host string, originForm bool, method
 	guard(t0)
 	eff, _ := c.CookieEffect(rec, proxyCookie)
 	loc := rec.Header().Get("Location")
-	obsBase, params := "", []kv{}
+	obsBase, params, rawQuery := "", []kv{}, ""
 	if u, err := url.Parse(loc); err == nil {
 		rq := u.RawQuery
+		rawQuery = rq
 		u.RawQuery = ""
 		u.ForceQuery = false
 		obsBase = u.String()
@@ -456,9 +457,9 @@ func (h *history) proxyStep(pw *proxyWorld, host string, originForm bool, method
 	}
 	h.tab.add(proxySecret, get(params, "redirect_uri")+get(params, "ts"))
 	h.tab.add(proxySecret, get(params, "redirect_uri")+fmt.Sprint(ts))
-	coq := fmt.Sprintf("SProxy {| po_base := %s; po_secret := %s; po_secure := %s; po_origin_form := %s; po_host := %s; po_clock := %s; po_ts := %s; po_status := %s; po_cleared := %s; po_obs_base := %s; po_params := %s |}",
+	coq := fmt.Sprintf("SProxy {| po_base := %s; po_secret := %s; po_secure := %s; po_origin_form := %s; po_host := %s; po_clock := %s; po_ts := %s; po_status := %s; po_cleared := %s; po_obs_base := %s; po_query := %s; po_params := %s |}",
 		c.Str(pw.base), c.Str(proxySecret), c.Bool(pw.secure), c.Bool(originForm), c.Str(host), c.Z(clock), c.Z(ts),
-		c.Z(int64(rec.Code)), c.Bool(eff == "cleared"), c.Str(obsBase), paramsCoq(params))
+		c.Z(int64(rec.Code)), c.Bool(eff == "cleared"), c.Str(obsBase), c.Str(rawQuery), paramsCoq(params))
 	h.steps = append(h.steps, coq)
 	h.js = append(h.js, map[string]interface{}{"step": "proxy_sign_out", "slug": pw.slug, "secure": pw.secure, "host": host, "origin_form": originForm,
 		"method": method, "status": rec.Code, "cookie": eff, "location": loc})
@@ -483,7 +484,8 @@ type authReq struct {
 	CookieKind string // none | junk | foreign | sealed | expired | wrongname
 	Sess       asess
 	Out        outcome
-	Link       *int64 // see ao_link
+	Link       *int64  // see ao_link
+	Raw        *string // GET only: this raw query string instead of URI/Sig/TS
 }
 
 type authObs struct {
@@ -524,7 +526,12 @@ func (h *history) authStep(aw *authWorld, f *idp, rq authReq) authObs {
 	uri, sig, ts := q.Get("redirect_uri"), q.Get("sig"), q.Get("ts")
 	target := "/" + rq.Slug + "/sign_out"
 	var body io.Reader
-	if rq.InBody && rq.Method == "POST" {
+	if rq.Raw != nil {
+		rq.Method = "GET"
+		target += "?" + *rq.Raw
+		vals, _ := url.ParseQuery(*rq.Raw) // what Go reads (partial on error; the model then predicts the 400 page)
+		uri, sig, ts = vals.Get("redirect_uri"), vals.Get("sig"), vals.Get("ts")
+	} else if rq.InBody && rq.Method == "POST" {
 		body = strings.NewReader(q.Encode())
 		if rq.Decoy {
 			target += "?redirect_uri=http%3A%2F%2Fevil.example%2F&sig=AAAA&ts=1"
@@ -606,16 +613,20 @@ func (h *history) authStep(aw *authWorld, f *idp, rq authReq) authObs {
 	if rq.Link != nil {
 		link = "(Some " + c.Z(*rq.Link) + ")"
 	}
+	rawCoq := "None"
+	if rq.Raw != nil {
+		rawCoq = "(Some " + c.Str(*rq.Raw) + ")"
+	}
 	m := map[string]string{"GET": "MGet", "POST": "MPost"}[rq.Method]
 	if m == "" {
 		m = "MOther"
 	}
-	coq := fmt.Sprintf("SAuth {| ao_secret := %s; ao_provider := %s; ao_clock := %s; ao_req := {| q_method := %s; q_uri := %s; q_sig := %s; q_ts := %s; q_parses := %s; q_in_domain := %s; q_cookie := %s; q_idp := %s |}; ao_link := %s; ao_resp := {| r_body := %s; r_clears := %s; r_revoked := %s |} |}",
+	coq := fmt.Sprintf("SAuth {| ao_secret := %s; ao_provider := %s; ao_clock := %s; ao_req := {| q_method := %s; q_uri := %s; q_sig := %s; q_ts := %s; q_parses := %s; q_in_domain := %s; q_cookie := %s; q_idp := %s |}; ao_link := %s; ao_raw := %s; ao_resp := {| r_body := %s; r_clears := %s; r_revoked := %s |} |}",
 		c.Str(aw.secret), map[string]string{"google": "PGoogle", "okta": "POkta"}[rq.Slug], c.Z(clock), m, c.Str(uri), c.Str(sig), c.Str(ts),
-		c.Bool(perr == nil), c.Bool(inDomain), ck, idpCoq(rq.Out.Ans), link, bodyCoq, c.Bool(o.Cleared), c.Strs(revoked))
+		c.Bool(perr == nil), c.Bool(inDomain), ck, idpCoq(rq.Out.Ans), link, rawCoq, bodyCoq, c.Bool(o.Cleared), c.Strs(revoked))
 	h.steps = append(h.steps, coq)
 	h.js = append(h.js, map[string]interface{}{"step": "auth_sign_out", "slug": rq.Slug, "method": rq.Method, "redirect_uri": uri, "sig": sig, "ts": ts,
-		"in_body": rq.InBody, "cookie": rq.CookieKind, "secrets_agree": aw.secret == proxySecret, "idp_outcome": rq.Out.Kind, "in_domain": inDomain,
+		"in_body": rq.InBody, "raw_query": rq.Raw, "cookie": rq.CookieKind, "secrets_agree": aw.secret == proxySecret, "idp_outcome": rq.Out.Kind, "in_domain": inDomain,
 		"status": rec.Code, "kind": o.Kind, "location": o.Loc, "cleared": o.Cleared, "revoke_calls": revoked})
 	return o
 }
@@ -940,6 +951,41 @@ func (e *env) sigs(i int) c.Case {
 	return h.emit()
 }
 
+// rawQueries: the same three fields written on the wire in unusual ways.
+func rawQueries(r *c.Rng, uri, sig, ts string) string {
+	e := url.QueryEscape
+	good := "redirect_uri=" + e(uri) + "&sig=" + e(sig) + "&ts=" + e(ts)
+	switch r.Intn(14) {
+	case 0:
+		return good
+	case 1:
+		return "ts=" + e(ts) + "&&sig=" + e(sig) + "&redirect_uri=" + e(uri) + "&"
+	case 2: // semicolon separators are an error since go1.17
+		return "redirect_uri=" + e(uri) + ";sig=" + e(sig) + ";ts=" + e(ts)
+	case 3:
+		return good + "&x=%zz"
+	case 4:
+		return good + "&x=%4"
+	case 5: // the first value wins
+		return "ts=1&" + good
+	case 6:
+		return good + "&ts=1&sig=AAAA"
+	case 7: // lower-case hex, unescaped reserved characters
+		return "redirect_uri=" + strings.ToLower(e(uri)) + "&sig=" + sig + "&ts=" + ts
+	case 8:
+		return "redirect_uri=" + uri + "&sig=" + sig + "&ts=" + ts
+	case 9:
+		return strings.Replace(good, "%2F", "/", -1) + "&a+b=c+d"
+	case 10:
+		return "%72edirect_uri=" + e(uri) + "&%73ig=" + e(sig) + "&t%73=" + e(ts)
+	case 11:
+		return "redirect_uri=" + e(uri) + "&sig=" + e(sig) + "&ts=" + e(ts) + "&=empty&novalue&k=v=w"
+	case 12:
+		return "redirect_uri=" + e(uri) + "&sig=" + e(sig) + "&ts=+" + e(ts)
+	}
+	return good + "&x;y=1"
+}
+
 // attacks: requests to the authenticator that do not come from the proxy's redirect.
 func (e *env) attacks(i int) c.Case {
 	r := e.r
@@ -973,6 +1019,11 @@ func (e *env) attacks(i int) c.Case {
 			rq.Sig = "\x00absent"
 		case 2:
 			rq.TS = "\x00absent"
+		case 3, 4, 5:
+			// a correctly signed in-domain request, written on the wire in unusual ways
+			u := uriPool[r.Intn(5)]
+			raw := rawQueries(r, u, sign(aw.secret, u, t), fmt.Sprint(t))
+			rq.Raw = &raw
 		}
 		h.authStep(aw, e.f, rq)
 	}
